@@ -100,6 +100,9 @@ func cmdCheck(args []string) int {
 	verbose := fs.Bool("v", false, "verbose")
 	updateBaseline := fs.Bool("update-baseline", false, "record discharged obligations into baseline_obligations.json")
 	timeout := fs.Int("timeout", 0, "per-obligation solver timeout in ms")
+	progress := fs.Bool("progress", false, "print each obligation's result to stderr as soon as it is known")
+	noesc := fs.Bool("noescalate", false, "do not escalate undecided obligations to longer timeouts (debugging)")
+	dump := fs.String("dump", "", "write the sliced SMT query of obligations whose name contains this string to the work dir and exit (debugging)")
 	fs.Parse(args)
 	if *tier == "" {
 		*tier = os.Getenv("VERIF_TIER")
@@ -169,7 +172,7 @@ func cmdCheck(args []string) int {
 		for _, u := range units {
 			var r *engine.UnitResult
 			if u.ct != nil {
-				opts := engine.Options{Thorough: *tier == "thorough"}
+				opts := engine.Options{Thorough: *tier == "thorough", GuardedMerge: os.Getenv("NRIVERIF_ITEMERGE") == ""}
 				r = prog.VerifyFunc(u.ct, opts)
 			} else {
 				r = prog.VerifyLemma(u.lm)
@@ -180,12 +183,27 @@ func cmdCheck(args []string) int {
 			if r.Err != nil {
 				continue
 			}
+			if *dump != "" {
+				for i, o := range r.VC.Obls {
+					if strings.Contains(o.Name, *dump) {
+						fn := filepath.Join(work, fmt.Sprintf("dump.%d.smt2", i))
+						os.WriteFile(fn, []byte(engine.QueryScript(r.VC, o, false)), 0o644)
+						fmt.Println(o.Name, "->", fn)
+					}
+				}
+				continue
+			}
 			wg.Add(1)
 			go func(r *engine.UnitResult) {
 				defer wg.Done()
 				sem <- struct{}{}
 				defer func() { <-sem }()
-				so := engine.SolveOpts{WorkDir: work, TimeoutMs: *timeout, SecondOpin: *tier == "thorough", Seed: seed}
+				so := engine.SolveOpts{WorkDir: work, TimeoutMs: *timeout, SecondOpin: *tier == "thorough", Seed: seed, NoEscalate: *noesc}
+				if *progress {
+					so.Progress = func(o *engine.Obligation) {
+						fmt.Fprintf(os.Stderr, "  %-8s %-22s %5.1fs %s\n", o.Status, o.Solver, o.TimeS, o.Name)
+					}
+				}
 				if so.TimeoutMs == 0 {
 					so.TimeoutMs = 10000
 					if *tier == "thorough" {
